@@ -13,12 +13,12 @@ import (
 )
 
 type Op struct {
-	Op      string   `json:"op"` // update | dead | alive | healthy | read | primary
-	Primary int      `json:"primary"`
-	Second  []int    `json:"secondaries"`
-	Target  int      `json:"target"`
-	Pref    int      `json:"pref"`
-	Times   int      `json:"times"`
+	Op      string `json:"op"` // update | dead | alive | healthy | read | primary
+	Primary int    `json:"primary"`
+	Second  []int  `json:"secondaries"`
+	Target  int    `json:"target"`
+	Pref    int    `json:"pref"`
+	Times   int    `json:"times"`
 }
 
 type H struct {
